@@ -38,10 +38,13 @@ type memTransport struct {
 	recipes    M // per-session verify recipes applied to every in-session tx
 	inSess     bool
 	cancel     context.CancelFunc
+	curCtx     context.Context
 	exact      bool // return exact-capacity slices (over-read => panic)
 	poison     int  // fill the unused part of the receive buffer with this byte (-1: leave)
 	txCount    int
 	unscripted int
+	txfails    int
+	blockLost  bool // a lost reply blocks until the attempt's context is done, like a real socket read
 	closed     bool
 }
 
@@ -80,9 +83,14 @@ func (t *memTransport) Send(ctx context.Context, b []byte) ([]byte, error) {
 	if err := ctx.Err(); err != nil {
 		// the real transport fails the write on an expired deadline: nothing is transmitted
 		t.log(M{"ev": "txfail"})
+		t.txfails++
+		if t.txfails > 50 && t.cancel != nil {
+			t.cancel() // a call that keeps trying with a dead context must not spin until the watchdog
+		}
 		return nil, err
 	}
 	t.txCount++
+	t.curCtx = ctx
 	t.e.req = append([]byte(nil), b...)
 	ev := M{"ev": "tx", "raw": toInts(b), "n": t.txCount}
 	if t.inSess && t.recipes != nil {
@@ -167,6 +175,11 @@ func (t *memTransport) read(r M) ([]byte, error) {
 	}
 	if len(t.sock) == 0 {
 		t.log(M{"ev": "rx", "timeout": true})
+		if t.blockLost && t.curCtx != nil {
+			t.mu.Unlock()
+			<-t.curCtx.Done()
+			t.mu.Lock()
+		}
 		return nil, context.DeadlineExceeded
 	}
 	d, a := t.sock[0], t.sockA[0]
@@ -515,6 +528,9 @@ func (r *runner) run() {
 		if opts["exact"] == true {
 			r.mt.exact = true
 		}
+		if opts["blockOnLost"] == true {
+			r.mt.blockLost = true
+		}
 		if p, ok := opts["poison"]; ok {
 			r.mt.poison = num(p)
 		}
@@ -574,6 +590,7 @@ func (r *runner) run() {
 			}
 			r.mt.cancel = cancel
 			r.mt.unscripted = 0
+			r.mt.txfails = 0
 			call := M{"ev": "call", "api": s["api"]}
 			for _, k := range []string{"cmd", "method", "label", "target", "args", "margs", "exp"} {
 				if v, ok := s[k]; ok {
